@@ -30,6 +30,7 @@ BASE = {"Peers": {"p1"}, "Svc": {0, 1}, "KAs": "<- KADef", "MaxCid": 3, "MaxPerP
         "MaxOpens": 0, "MaxInb": 0, "MaxFc": 0, "MaxExp": 0, "Eager": "<- NoEager", "EagerCmd": False,
         "SplitClose": False, "Clog": False, "Bug": "none"}
 MC_INV = ["SPECIFICATION Spec", "INVARIANTS MonOK QuiesceOK IdsBelow NoPanicInScope", "VIEW View", "CHECK_DEADLOCK FALSE"]
+NEG_INV = ["SPECIFICATION Spec", "INVARIANTS MonOK QuiesceOK NoPanicInScope", "VIEW View", "CHECK_DEADLOCK FALSE"]
 GEN = ["SPECIFICATION Spec", "VIEW GenView", "ACTION_CONSTRAINT Emit", "CHECK_DEADLOCK FALSE"]
 E1 = "= {1}"
 
@@ -69,19 +70,21 @@ P2 = {"p1", "p2"}
 def mc_configs(ctx):
     if ctx.quick():
         return [
-            # connection life cycle, both services lazy, third connection offered
+            # connection life cycle, both services lazy, third connection offered, ordering probe
             ("life3", cfg(MaxOverlap=3, MaxInb=1, Clog=True)),
-            # substreams on two overlapping connections, close/drop window, keep-alive
-            ("subs", cfg(MaxOpens=2, MaxInb=1, MaxExp=1, Eager=E1)),
+            # substreams on two overlapping connections + keep-alive expiry
+            ("subs", cfg(MaxOpens=2, MaxExp=1, Eager=E1)),
+            # window between report_connection_closed and the end of the task, force_close
             ("window", cfg(MaxCid=2, MaxPerPeer=2, MaxOpens=2, MaxFc=1, SplitClose=True, Eager=E1)),
             ("keepalive", cfg(MaxCid=2, MaxPerPeer=2, MaxOpens=1, MaxInb=1, MaxExp=3, KAs="<- KAAny", Eager=E1, EagerCmd=True)),
             # two peers
-            ("peers2", cfg(Peers=P2, MaxPerPeer=2, MaxOpens=2, Eager=E1, EagerCmd=True)),
+            ("peers2", cfg(Peers=P2, MaxPerPeer=2, MaxOpens=2, Eager="= {0, 1}", EagerCmd=True)),
         ]
     return [
         ("life3", cfg(MaxCid=4, MaxPerPeer=4, MaxOverlap=3, MaxInb=1, Clog=True)),
-        ("subs", cfg(MaxOpens=3, MaxInb=1, MaxExp=1, Eager=E1)),
-        ("subs_lazy", cfg(MaxOpens=2, MaxInb=1)),
+        ("subs", cfg(MaxOpens=2, MaxInb=1, MaxExp=1, Eager=E1)),
+        ("subs3", cfg(MaxOpens=3, Eager=E1, EagerCmd=True)),
+        ("subs_lazy", cfg(MaxCid=2, MaxPerPeer=2, MaxOpens=2, MaxInb=1)),
         ("window", cfg(MaxOpens=2, MaxFc=1, SplitClose=True, Eager=E1)),
         ("keepalive", cfg(MaxCid=2, MaxPerPeer=2, MaxOpens=2, MaxInb=1, MaxExp=3, KAs="<- KAAny", Eager=E1)),
         ("peers2", cfg(Peers=P2, MaxCid=4, MaxPerPeer=2, MaxOpens=2, Eager=E1, EagerCmd=True)),
@@ -92,12 +95,14 @@ def mc_configs(ctx):
 def gen_configs(ctx):
     if ctx.quick():
         return [
-            ("life", cfg(MaxInb=1, Clog=True)),
+            ("life", cfg(Clog=True)),
+            ("life_in", cfg(MaxInb=1, Eager=E1)),
             ("life3", cfg(MaxOverlap=3, Eager=E1)),
-            ("subs", cfg(MaxCid=2, MaxPerPeer=2, MaxOpens=2, MaxInb=1, Eager=E1)),
+            ("subs", cfg(MaxCid=2, MaxPerPeer=2, MaxOpens=2, Eager=E1)),
+            ("subs_in", cfg(MaxCid=2, MaxPerPeer=2, MaxOpens=1, MaxInb=1, Eager=E1)),
             ("window", cfg(MaxCid=2, MaxPerPeer=2, MaxOpens=1, MaxFc=1, SplitClose=True, Eager=E1)),
-            ("keepalive", cfg(MaxCid=2, MaxPerPeer=2, MaxOpens=1, MaxExp=2, KAs="<- KAAny", Eager=E1, EagerCmd=True)),
-            ("peers2", cfg(Peers=P2, MaxCid=2, MaxPerPeer=2, MaxOpens=1, MaxInb=1, Eager=E1)),
+            ("keepalive", cfg(MaxCid=2, MaxPerPeer=2, MaxOpens=1, MaxExp=2, Eager=E1, EagerCmd=True)),
+            ("peers2", cfg(Peers=P2, MaxCid=2, MaxPerPeer=2, MaxOpens=1, Eager=E1)),
         ]
     return [
         ("life", cfg(MaxInb=1, Clog=True)),
@@ -138,13 +143,26 @@ def maximal(behs):
 
 
 def generate(ctx):
+    """Behaviours per transition of every generation config, reduced to the maximal ones; the quick tier replays a
+    seeded sample of them (the whole set is replayed by the thorough tier; VERIF_SEED moves the sample)."""
     behs, stats = [], []
+    budget = 6000 if ctx.quick() else None
+    per = []
     for name, consts in gen_configs(ctx):
         b, g = tlc_generate(ctx, "SvcLifeMC.tla", write_cfg2(ctx, "gen_%s.cfg" % name, consts, GEN), timeout=1500)
         m = maximal(b)
         g["cfg"] = name
         g["maximal"] = len(m)
         stats.append(g)
+        per.append(m)
+    total = sum(len(m) for m in per)
+    rnd = random.Random(ctx.seed)
+    for g, m in zip(stats, per):
+        if budget and total > budget:
+            k = max(200, len(m) * budget // total)
+            if k < len(m):
+                m = rnd.sample(m, k)
+        g["replayed"] = len(m)
         behs += m
         log("GEN %s" % g)
     # the same history can come out of two configurations
@@ -157,6 +175,31 @@ def generate(ctx):
     return uniq, stats
 
 
+def S(a, **kw):
+    d = {"a": a}
+    d.update(kw)
+    return d
+
+
+# hand-written histories replayed in every run so that each outcome class is exercised at least once
+FIXED = [
+    # both services let the keep-alive of the only connection expire: no sender is left, the connection sees the end
+    # of its command stream, cannot get a permit for an inbound substream, open_substream is refused
+    {"ka": [True, False], "stims": [S("est", p="p1", c=1), S("poll", q=0), S("poll", q=1), S("expire", q=0, p="p1", c=1),
+                                    S("expire", q=1, p="p1", c=1), S("cmd", c=1), S("inbound", c=1, q=0), S("open", q=0, p="p1"),
+                                    S("open", q=1, p="p2")]},
+    # force_close reaches both connections; a request is read, fails, and the failure carries the id
+    {"ka": [True, False], "stims": [S("est", p="p1", c=1), S("est", p="p1", c=2), S("poll", q=0), S("open", q=0, p="p1"),
+                                    S("fclose", q=0, p="p1"), S("cmd", c=1), S("reply", c=1, id=0, ok=False), S("cmd", c=1),
+                                    S("cmd", c=2), S("poll", q=0), S("fclose", q=1, p="p1")]},
+    # secondary promoted with a request in flight on the old primary; ordering probe on the second closure
+    {"ka": [True, True], "stims": [S("est", p="p1", c=1), S("est", p="p1", c=2), S("poll", q=0), S("poll", q=1), S("open", q=1, p="p1"),
+                                   S("cmd", c=1), S("close", c=1, clog=-1), S("open", q=1, p="p1"), S("drop", c=1), S("poll", q=1),
+                                   S("open", q=1, p="p1"), S("cmd", c=2), S("reply", c=2, id=2, ok=True), S("poll", q=1),
+                                   S("poll", q=0), S("close", c=2, clog=0)]},
+]
+
+
 def slug(reason):
     return reason.replace(" ", "-").replace("'", "")
 
@@ -167,6 +210,8 @@ def classify(seg, idx, reason):
         return "malformed-trace"
     ev = json.loads(seg[idx - 1])
     s = ev.get("s", {})
+    if s.get("a", "").startswith("n") and s.get("a") in ("nev", "nopen", "nterm"):
+        return "net-" + slug(reason)
     if reason == "panic":
         msg = ev.get("ret", {}).get("msg", "")
         return "panic-in-%s%s" % (s.get("a", "?"), "-debug-assert" if "assertion failed" in msg else "")
@@ -176,14 +221,26 @@ def classify(seg, idx, reason):
 def pipeline(ctx):
     mc = mc_runs(ctx)
     behs, gstats = generate(ctx)
+    behs = FIXED + behs
     write_jsonl(ctx.path("behs.jsonl"), behs)
     build_s = cargo_build(ctx, ["svc"])
-    nrand, rlen = (1500, 70) if ctx.quick() else (20000, 90)
+    nrand, rlen = (600, 70) if ctx.quick() else (20000, 90)
+    nnet = 25 if ctx.quick() else 250
     summ, _ = harness(ctx, "svc", ["--behaviours", ctx.path("behs.jsonl"), "--random", nrand, "--len", rlen,
-                                   "--seed", ctx.seed, "--out", ctx.path("trace.ndjson")], timeout=3000)
+                                   "--seed", ctx.seed, "--out", ctx.path("trace.ndjson"),
+                                   "--net", nnet, "--netout", ctx.path("net.ndjson")], timeout=3000)
     log("HARNESS: %s (build %ss)" % (summ, build_s))
     lines = read_lines(ctx.path("trace.ndjson"))
+    netlines = read_lines(ctx.path("net.ndjson"))
+    if summ["net"].get("net_runs", 0) < nnet // 2:
+        raise ToolError("real-network part: only %s of %d scenarios could be run (%s discarded)" %
+                        (summ["net"].get("net_runs"), nnet, summ["net"].get("net_discarded")))
     nseg, nev, rejects = validate_all(ctx, "SvcLifeTrace.tla", "SvcLifeTrace.cfg", lines, mode="prop")
+    nseg2, nev2, rej2 = validate_all(ctx, "SvcLifeTrace.tla", "SvcLifeTrace.cfg", netlines, mode="prop", tag="n")
+    summ["net"]["segments"], summ["net"]["events"] = nseg2, nev2
+    for r in rej2:
+        r.net = True
+    rejects = rejects + rej2
     _, _, drift = validate_segments(ctx, "SvcLifeTrace.tla", "SvcLifeTrace.cfg", lines, mode="impl", max_rejects=3, tag="d")
     for seg, idx in drift:
         log("NOTE drift: real TransportService/ProtocolSet deviates from SvcLifeMC at %s" % seg[idx - 1][:600])
@@ -290,11 +347,12 @@ def replay(ctx, path):
 
 
 NEG = [
-    ("est_secondary", cfg(MaxCid=2, MaxPerPeer=2, Bug="est_secondary"), "established reported twice"),
-    ("no_promote", cfg(MaxCid=2, MaxPerPeer=2, MaxInb=1, Bug="no_promote"), "not connected"),
-    ("answer_lost", cfg(MaxCid=1, MaxPerPeer=1, MaxOpens=1, Bug="answer_lost"), "never reached"),
-    ("id_reuse", cfg(MaxCid=1, MaxPerPeer=1, MaxOpens=2, Bug="id_reuse"), "identifier reused"),
-    ("mgr_first", cfg(MaxInb=1, Bug="mgr_first", Eager=E1), "not connected|panic"),
+    # (name, constants, invariant expected to fail, rule expected in the monitor (regex) or None)
+    ("est_secondary", cfg(MaxCid=2, MaxPerPeer=2, Bug="est_secondary"), "MonOK", "established reported twice"),
+    ("no_promote", cfg(MaxCid=2, MaxPerPeer=2, MaxInb=1, Bug="no_promote"), "MonOK", "not connected"),
+    ("answer_lost", cfg(MaxCid=1, MaxPerPeer=1, MaxOpens=1, Bug="answer_lost"), "QuiesceOK", None),
+    ("id_reuse", cfg(MaxCid=1, MaxPerPeer=1, MaxOpens=2, Bug="id_reuse"), "MonOK", "identifier reused"),
+    ("mgr_first", cfg(MaxInb=1, Bug="mgr_first", Eager=E1), "MonOK|NoPanicInScope", "not connected|panic"),
 ]
 
 
@@ -335,17 +393,37 @@ def selftest(ctx):
         hit = [r for r in rj if re.search(expect, r.reason)]
         at = hit[0][1] if hit else None
         log("selftest corrupt %s at line %d -> %s" % (name, i + 1, "rejected (%s) at segment line %s (corrupted line is %s)"
-                                                      % (hit[0].reason, at, want) if hit else "ACCEPTED"))
+                                                      % (hit[0].reason, at, want) if hit else "NOT CAUGHT (other rejections: %s)" % [r.reason for r in rj][:3]))
         ok &= bool(hit) and at is not None and at >= want
 
     isret = lambda a, k: (lambda d: d.get("e") == "step" and d["s"]["a"] == a and d["ret"].get("k") == k)
-    corrupt("closed event dropped", isret("poll", "closed"), lambda e: e["ret"].update(k="pending"), "established reported twice|not connected")
-    corrupt("secondary announced", lambda d: isret("poll", "pending")(d), lambda e: e.update(ret={"k": "closed", "p": "p3"}),
+
+    def earlier_id(i):
+        """an identifier returned earlier in the same execution"""
+        j = i - 1
+        while j >= 0 and '"e":"reset"' not in lines[j]:
+            d = json.loads(lines[j])
+            if isret("open", "ok")(d):
+                return d["ret"]["id"]
+            j -= 1
+        return None
+
+    second_open = lambda d: False
+    cand2 = [i for i, ln in enumerate(lines) if isret("open", "ok")(json.loads(ln)) and earlier_id(i) is not None]
+    corrupt("closed event dropped", isret("poll", "closed"), lambda e: e["ret"].update(k="pending"),
+            "established reported twice|not connected|closed reported without established")
+    corrupt("spurious closed event", isret("poll", "pending"), lambda e: e.update(ret={"k": "closed", "p": "p3"}),
             "closed reported without established")
     corrupt("answer id changed", isret("poll", "failed"), lambda e: e["ret"].update(id=e["ret"]["id"] + 1000), "never returned")
-    corrupt("open id reused", lambda d: isret("open", "ok")(d) and d["ret"]["id"] > 0, lambda e: e["ret"].update(id=0), "identifier reused")
-    corrupt("manager told early", lambda d: isret("close", "ok")(d), lambda e: e["ret"].update(early=True), "manager told")
-    corrupt("request lost", isret("cmd", "open"), lambda e: e.update(ret={"k": "pending"}), "nobody|never answered|does not match|delivered")
+    if cand2:
+        i2 = rnd.choice(cand2)
+        corrupt("open id reused", lambda d, i2=i2: d is not None and json.dumps(d, separators=(",", ":")) == lines[i2],
+                lambda e, i2=i2: e["ret"].update(id=earlier_id(i2)), "identifier reused")
+    else:
+        ok = False
+    corrupt("manager told early", isret("close", "ok"), lambda e: e["ret"].update(early=True), "manager told")
+    corrupt("answer to the wrong protocol", lambda d: isret("poll", "failed")(d) or (isret("poll", "opened")(d) and d["ret"]["dirn"] == "out"),
+            lambda e: e["s"].update(q=1 - e["s"]["q"]), "another protocol")
     for fault, expect in [("answer_id", "answer"), ("drop_closed", "established reported twice"), ("id_reuse", "identifier reused"),
                           ("mgr_early", "manager told")]:
         harness(ctx, "svc", ["--random", 60, "--len", 60, "--seed", ctx.seed, "--out", ctx.path("f.ndjson")], env={"VERIF_FAULT": fault})
@@ -353,13 +431,13 @@ def selftest(ctx):
         hit = [r for r in rj if re.search(expect, r.reason)]
         log("selftest harness fault %s -> %d executions rejected (%s)" % (fault, len(rj), hit[0].reason if hit else "NOT CAUGHT"))
         ok &= bool(hit)
-    for name, consts, expect in NEG:
-        r = tlc_mc(ctx, "SvcLifeMC.tla", write_cfg2(ctx, "neg_%s.cfg" % name, consts, MC_INV), workers=6, timeout=600, expect_violation=True)
-        viol = (not r["ok"]) and ("is violated" in r["out"])
-        m = re.findall(r'bad \|-> "([^"]+)"', r["out"])
-        why = [x for x in m if x]
-        good = viol and any(re.search(expect, x) for x in why) or (viol and "NoPanicInScope" in r["out"] and "panic" in expect)
-        log("selftest negative model %s -> %s %s" % (name, "violated" if viol else "NOT VIOLATED", sorted(set(why))[:2]))
+    for name, consts, inv, expect in NEG:
+        r = tlc_mc(ctx, "SvcLifeMC.tla", write_cfg2(ctx, "neg_%s.cfg" % name, consts, NEG_INV), workers=6, timeout=600, expect_violation=True)
+        which = re.findall(r"Invariant (\w+) is violated", r["out"])
+        why = sorted({x for x in re.findall(r'bad \|-> "([^"]*)"', r["out"]) if x})
+        good = bool(which) and re.fullmatch(inv, which[0]) is not None and \
+            (expect is None or which[0] != "MonOK" or any(re.search(expect, x) for x in why))
+        log("selftest negative model %s -> %s %s" % (name, ("invariant %s violated" % which[0]) if which else "NOT VIOLATED", why[:2]))
         ok &= bool(good)
     log("SELFTEST %s" % ("ok" if ok else "FAILED"))
     return 0 if ok else 2
